@@ -1,5 +1,5 @@
 /* C16 / slots: threads entering and leaving one arena concurrently (thread mode, every interleaving with <= ROUNDS slices
- * per thread + 2 forced rounds). Arena built by the real arena::allocate_arena with NSLOTS slots, NRES reserved.
+ * per thread + 2 forced rounds). Arena: white-box storage with the real layout (see w_slots.cpp), NSLOTS slots, NRES reserved.
  * Thread t performs NVt visits in role ROLEt (0 = external thread via occupy_free_slot<false>, 1 = worker via try_join +
  * occupy_free_slot<true> + on_thread_leaving). Symbolic: schedule, slot hint (thread_data::my_arena_index) and RNG state of
  * every thread, worker allotment, set of slots already occupied by threads outside the model (PRE).
